@@ -86,6 +86,14 @@ def run(rep, tier, seed):
         if calls != want:
             rep.violation("C07/stop-callback-lost", f"APIClient constructed while another event loop was current, session established on the running loop and ended by {ending}: "
                           f"stop callback invocations {calls}, expected {want}", {"kind": "foreign-loop", "ending": ending})
+    for how in ("returns", "raises", "cancelled"):
+        calls = stop_callback_chain_probe(how)
+        want = [(1, False), (2, True), (3, False)]
+        rep.case(("stop-callback-chain", how), True, sample={"stop_callback_chain": how, "callbacks": calls})
+        rep.bump("probe:stop-callback-chain")
+        if sorted(calls) != want:
+            rep.violation("C07/stop-callback-lost", f"three consecutive sessions of one client; the first session's slow stop callback {how} after the second session has ended: "
+                          f"stop callback invocations (session, reason) {calls}, expected {want}", {"kind": "stop-callback-chain", "how": how})
 
 
 def siblings_probe(first_event, second_event):
@@ -190,6 +198,59 @@ def foreign_loop_probe(ending):
         other.close()
 
 
+def stop_callback_chain_probe(how_first_ends):
+    """Three consecutive sessions of one client, each with its own (asynchronous) stop callback. The callback of the first session is
+    slow and ends by raising / being cancelled / returning while the second session has already ended. Every established
+    session's callback is still invoked exactly once, with its own reason. Returns the list of (session, reason) invocations."""
+    import asyncio
+    from vlib import simnet
+
+    async def go(loop):
+        from aioesphomeapi import api_pb2 as pb
+        from aioesphomeapi.client import APIClient
+        net = simnet.Net(loop)
+        calls = []
+        slow_tasks = []
+        loop.set_exception_handler(lambda l, ctx: None)      # the application's failing callback is reported to the loop: not what is observed here
+        with net.patched():
+            cli = APIClient("10.0.0.1", 6053, None)
+
+            def mk(k):
+                async def on_stop(expected):
+                    calls.append((k, bool(expected)))
+                    if k == 1:
+                        slow_tasks.append(asyncio.current_task())
+                        await asyncio.sleep(2.0)
+                        if how_first_ends == "raises":
+                            raise ValueError("application bug in the stop callback")
+                return on_stop
+            for k in (1, 2, 3):
+                await cli.start_connection(on_stop=mk(k))
+                t = asyncio.ensure_future(cli.finish_connection(login=False))
+                await simnet.drain(loop)
+                tr = net.transports[-1]
+                tr.feed(simnet.plain_msg(pb.HelloResponse(api_version_major=1, api_version_minor=10, name="dev")))
+                await simnet.drain(loop)
+                await t
+                if k == 2:
+                    tr.feed(simnet.plain_msg(pb.DisconnectRequest()))      # expected
+                else:
+                    tr.lose(ConnectionResetError("reset"))               # unexpected
+                await simnet.drain(loop)
+                await simnet.advance(loop, by=0.5)
+                if k == 2 and how_first_ends == "cancelled" and slow_tasks:
+                    slow_tasks[0].cancel()
+                    await simnet.drain(loop)
+            await simnet.advance(loop, by=5.0)
+            try:
+                await cli.disconnect(force=True)
+            except Exception:  # noqa: BLE001
+                pass
+            await simnet.drain(loop)
+        return calls
+    return simnet.run(go)
+
+
 def reconnect_from_hook_probe(ending):
     """The application's stop callback reconnects at once (as ReconnectLogic does after an unexpected drop), handing over the
     callback for the NEW session; that session is established and ends: its callback fires exactly once too."""
@@ -249,6 +310,12 @@ def reconnect_from_hook_probe(ending):
 
 def replay(path):
     d = json.loads(open(path).read())["replay"]
+    if d.get("kind") == "stop-callback-chain":
+        from vlib import common
+        common.setup_impl_path()
+        calls = stop_callback_chain_probe(d["how"])
+        print(calls)
+        return 1 if sorted(calls) != [(1, False), (2, True), (3, False)] else 0
     if d.get("kind") == "foreign-loop":
         from vlib import common
         common.setup_impl_path()
